@@ -27,7 +27,7 @@ import scopelib as sl
 import tdgen
 
 THEOREMS = ["C05_block_scopes_end", "C05_locals_do_not_leak", "C05_out_of_scope_partial", "C05_unresolved_reported",
-            "C05_resolution_values_partial"]
+            "C05_resolution_values_partial", "C05_resolution_blocks_partial"]
 TRUSTED = [
     "Coq 8.16.1 kernel (coqc; vm_compute only in the non-vacuity Examples); no axioms",
     "statement of the declarative resolver coq/model/ScopeSpec.v (read against the TableGen scoping rules; "
@@ -217,6 +217,27 @@ def run(ctx):
                               {"property": "C05", "workspace": {"files": c["files"], "root": c["root"]},
                                "directed": {"use": [lo, hi], "decl": [dlo, dhi], "key": "unknown-sequence"}})
                 found = True
+    # the declarative resolver ScopeSpec (extracted) on the single-file programs of its fragment: against the
+    # generator's by-construction map (spec sanity) and against the model's use log (what C05_resolution states)
+    spec_stats = {"fragment_programs": 0, "spec_vs_generator": 0, "spec_vs_model": 0}
+    if exe:
+        one = [(p, w, c) for p, w, c in zip(progs, wss, C) if len(w["files"]) == 1 and not c.get("noncore") and not c.get("panic")]
+        S = sl.model(exe, [c for _p, _w, c in one], [w for _p, w, _c in one], cmd="spec")
+        for (p, w, c), sp in zip(one, S):
+            if sp is None or sp.get("error") or not sp["frag"]:
+                continue
+            spec_stats["fragment_programs"] += 1
+            files = c["files"]
+            got = {(files[e[0]], e[1], e[2]): (None if e[3] is None else (files[e[3][0]], e[3][1], e[3][2])) for e in sp["spec"]}
+            exp = {(u[0], u[1], u[2]): p.decls[u[3]] for u in p.uses}
+            exp.update({k: None for k in p.notfound})
+            if any(got.get(k, "missing") != v for k, v in exp.items()):
+                spec_stats["spec_vs_generator"] += 1
+                fails.append({"kind": "spec-sanity", "file": "coq/model/ScopeSpec.v vs lib/tdgen.py", "workspace": w})
+            if [e for e in sp["spec"] if e[3] is not None] != sp["model"]:
+                spec_stats["spec_vs_model"] += 1
+                fails.append({"kind": "spec-vs-model", "file": "coq/model/ScopeSpec.v vs coq/model/Indexer.v", "workspace": w})
+    ctx.cov["scope_spec"] = spec_stats
     if broken_corr:
         fails.append({"kind": "correspondence", "file": "model Indexer.v vs crates/ide/src/index.rs",
                       "disagreements": broken_corr[:3]})
